@@ -11,6 +11,7 @@ from __future__ import annotations
 
 import argparse
 import faulthandler
+import glob
 import json
 import os
 import sys
@@ -25,22 +26,53 @@ def cmd_explore(a):
     env.boot()
     faulthandler.enable()
     t_end = time.time() + a.deadline
+    # work floor: a slow or cold machine (empty XLA cache after a fresh restore) keeps going past the
+    # time budget until `--min-runs` runs are done, but never past the hard deadline
+    t_hard = time.time() + max(a.deadline, a.hard_deadline or 0)
     from sim import core as _core
     from sim import enumerate_faults as _ef
 
-    _core.DEADLINE = t_end
-    _ef.DEADLINE = t_end + 15
     n = 0
+
+    def below_floor():
+        """The floor is a total over all workers of the phase: every worker publishes its run count
+        next to its output file and reads the others' (a worker with expensive runs does not hold
+        the others to a share it cannot reach, and is not held itself)."""
+        if not a.min_runs:
+            return False
+        total = 0
+        for fn in glob.glob(os.path.join(os.path.dirname(a.out) or ".", "*.nruns")):
+            try:
+                total += int(open(fn).read().strip() or 0)
+            except Exception:
+                pass
+        return total < a.min_runs
+
+    def publish():
+        if a.min_runs:
+            with open(a.out + ".nruns.tmp", "w") as cf:
+                cf.write(str(agg["runs"]))
+            os.replace(a.out + ".nruns.tmp", a.out + ".nruns")
+
     agg = {"cells": set(), "nontrivial": set(), "faults": {}, "perturb": {}, "probes": {}, "branches": 0, "rare": 0, "interleavings": set(), "shapes": set(), "steps": 0, "checked": 0, "runs": 0, "twin_steps": 0, "enum_injections": 0}
     with open(a.out, "w") as f:
         k = a.offset
-        while n < a.max_runs and time.time() < t_end:
+        while n < a.max_runs and (time.time() < t_end or (below_floor() and time.time() < t_hard)):
+            # runs below the floor are complete runs (optional twins, full enumeration) up to the hard deadline
+            dl = t_hard if (a.min_runs and time.time() >= t_end) else t_end
+            _core.DEADLINE = dl
+            _ef.DEADLINE = dl + 15
+            if time.time() >= t_end:
+                agg["late_runs"] = agg.get("late_runs", 0) + 1
             seed = a.seed0 + k
             k += a.stride
             n += 1
             with open(a.out + ".cur", "w") as cf:
                 cf.write(str(seed))
-            faulthandler.dump_traceback_later(900, exit=True)
+            if os.environ.get("VERIF_SLOW_DUMP"):  # debugging aid: where is a run stuck (cold XLA compiles)
+                faulthandler.dump_traceback_later(float(os.environ["VERIF_SLOW_DUMP"]), repeat=True)
+            else:
+                faulthandler.dump_traceback_later(900, exit=True)
             try:
                 if a.enum:
                     from sim import enumerate_faults
@@ -57,6 +89,7 @@ def cmd_explore(a):
             finally:
                 faulthandler.cancel_dump_traceback_later()
             agg["runs"] += 1
+            publish()
             if rr.slowest[0] > agg.get("slowest", (0,))[0]:
                 agg["slowest"] = (round(rr.slowest[0], 1), seed, rr.slowest[1], rr.slowest[2], g_ops(rec))
             agg["steps"] += rr.steps
@@ -103,6 +136,7 @@ def cmd_explore(a):
             "interleaving_hashes": sorted(hash_s(x) for x in agg["interleavings"]),
             "shapes": sorted(agg["shapes"]),
             "slowest": agg.get("slowest"),
+            "late_runs": agg.get("late_runs", 0),
         }
         f.write(json.dumps(summ) + "\n")
 
@@ -165,6 +199,8 @@ def main():
     e.add_argument("--offset", type=int, default=0)
     e.add_argument("--deadline", type=float, default=50)
     e.add_argument("--max-runs", type=int, default=10**9)
+    e.add_argument("--min-runs", type=int, default=0)
+    e.add_argument("--hard-deadline", type=float, default=0)
     e.add_argument("--enum", action="store_true")
     e.add_argument("--out", required=True)
     r = sub.add_parser("replay")
